@@ -55,6 +55,7 @@ type sessKind struct {
 	eof       bool   // the server closes right after the burst
 	connectTo bool   // password given through ConnectTo
 	stall     bool   // the server never reads: the registration lines stay queued until the connection ends
+	userPass  bool   // no password configured: the application sends it itself with conn.Pass()
 	sasl      bool   // a SASL client is configured as well (the server password is still sent, and must still be masked)
 	flood     bool   // flood control on, the penalty already near the threshold (as after a quick reconnect): PASS itself is held back
 	second    string // a second session on the same client with another password, given through "connectTo" or "config"
@@ -68,6 +69,7 @@ func kinds() []sessKind {
 		{name: "negotiation+stalled-server+eof", stall: true, neg: true, eof: true},
 		{name: "second-session-password-by-ConnectTo", second: "connectTo"}, {name: "second-session-password-in-Config", second: "config", neg: true},
 		{name: "ConnectTo-then-second-ConnectTo", connectTo: true, second: "connectTo"},
+		{name: "password-sent-with-conn.Pass()", userPass: true}, {name: "password-cleared-in-Config-after-Connect", userPass: true, neg: true},
 		{name: "sasl-plain+server-password", sasl: true}, {name: "sasl-plain+server-password+tracking", sasl: true, tracking: true},
 		{name: "flood-control-on+penalty-near-threshold", flood: true}, {name: "negotiation+flood-control-on+penalty-near-threshold", flood: true, neg: true}}
 	for n := 1; n <= 4; n++ {
@@ -85,7 +87,7 @@ func runSession(k sessKind, pw string, lg *capLog) []string {
 			c.Sasl = sasl.NewPlainClient("", "account", "account-secret-not-the-server-password")
 		}
 		c.Flood = !k.flood
-		if !k.connectTo {
+		if !k.connectTo && !(k.userPass && !k.neg) {
 			c.Pass = pw
 			if k.second != "" {
 				c.Pass = pw + "-1st"
@@ -165,6 +167,12 @@ func runSession(k sessKind, pw string, lg *capLog) []string {
 				}
 			} else {
 				s.Welcome("me", 2*time.Second)
+				if k.userPass {
+					// the secret is removed from the configuration as soon as it is no longer needed, and sent
+					// once more by hand (as for a services login that takes the same password)
+					s.C.Config().Pass = ""
+					s.C.Pass(pw)
+				}
 				s.Srv.SendLines(":x!y@z PRIVMSG me :hello", "PING :t")
 				s.Sync(2 * time.Second)
 			}
